@@ -246,7 +246,7 @@ func (m *monC04) Finish(rc *RunCtx) {
 }
 
 func init() {
-	simProps["C04"] = simProp{checkSpec{Prop: "C04", Level: "exploration", NQuick: 400, NThorough: 12000,
+	simProps["C04"] = simProp{checkSpec{Prop: "C04", Level: "exploration", NQuick: 2000, NThorough: 40000,
 		Rule:   "cases = generated projects over the three weather layouts, 2-5 years, leap years, series starting before the start year and not on 1 January, sentinel values in optional columns (also on 31 Dec / 1 Jan of multi-year files), wind below the floor, optional monthly precipitation correction; on every simulated day the arrays the model uses at its day index are compared with the generator's truth table for that calendar date after the documented normalisations; 30% of the cases carry an incomplete weather input (ends early / gap / missing year / starts late) and must end with an error without simulating an uncovered day; non-trivial = >30 days with a year change, leap day or filled sentinel, and every fault case",
 		Floors: []string{"days_checked", "days_layout_0", "days_layout_1", "days_layout_2", "year_changes", "leap_days", "sentinels_checked", "sentinels_at_year_boundary", "days_wind_used_checked", "days_wind_floor_applied", "days_precipitation_correction", "fault_cases_ends_early", "fault_cases_gap", "fault_cases_missing_year", "fault_cases_starts_late"}},
 		func() []Monitor { return []Monitor{&monC04{}} }}
